@@ -23,9 +23,9 @@ func init() {
 
 func (p *c02) NumCases(tier string) int {
 	if tier == "thorough" {
-		return 4000
+		return 8000
 	}
-	return 120
+	return 500
 }
 
 // typedFilter returns a well-typed filter over the ixSpec attributes (v:N, g,s,r,h:S).
